@@ -1496,14 +1496,20 @@ void wide_shapes(WideOps const& t, vf::Rng& rng, int nrandom, std::vector<Shape>
     }
     // balanced: every dynamic extent about budget^(1/nd)
     {
-        ull root = 1;
-        while (true) {
-            u128 p = 1;
-            for (int j = 0; j < nd; ++j) { p *= (root + 1); }
-            if (p > budget) { break; }
-            ++root;
-            if (root > (1ULL << 32)) { break; }
+        // largest root with root^nd <= budget (binary search, 128-bit products)
+        ull lo = 1;
+        ull hi = nd == 1 ? budget : nd == 2 ? (1ULL << 31) : nd == 3 ? (1ULL << 21) : (1ULL << 16); // (limit <= 2^62)
+        while (lo < hi) {
+            ull const mid = lo + (hi - lo + 1) / 2;
+            u128 p        = 1;
+            for (int j = 0; j < nd; ++j) { p *= mid; }
+            if (p <= budget) {
+                lo = mid;
+            } else {
+                hi = mid - 1;
+            }
         }
+        ull const root = lo;
         for (int j = 0; j < 4; ++j) { v[j] = root; }
         emit(v);
         v[0] = root > 1 ? root - 1 : 1;
